@@ -389,6 +389,15 @@ fn check(case: &Case, ev: &mut CaseEv) -> CheckResult {
 
     let mut opt = kind.create();
     catch(|| opt.validate(build_vectors(case))).map_err(|p| Fail::new(format!("validate panicked: {p}")))?;
+    if case.wseed % 5 == 0 {
+        // what Network::set_optimizer does for the optimizer of a feedback block: a clone of the validated
+        // optimizer is validated again (fresh state, hyper-parameters already defaulted) - the documented rule
+        // must hold for that object as well
+        let mut again = opt.clone();
+        catch(|| again.validate(build_vectors(case))).map_err(|p| Fail::new(format!("second validate (on a clone) panicked: {p}")))?;
+        opt = again;
+        ev.class("validated twice (clone), as for feedback blocks");
+    }
 
     // initial weights per logical parameter
     let init: Vec<Vec<f32>> = case.lens.iter().enumerate().map(|(q, n)| crate::tape::payload(case.wseed.wrapping_add(q as u32), 1, *n, 1.0)).collect();
@@ -529,7 +538,7 @@ impl Prop for C03 {
         t.pick(150_000, 6_000_000)
     }
     fn rule(&self) -> String {
-        "tape-decoded history: optimizer kind x hyper-parameters (valid ranges, exact 0 -> validate's default, None/Some(0)/Some(x) for decay and momentum, dampening, centred) x 1-2 logical parameters of flat length 1..16 (one history in 60: 128 x 130 elements), each materialised in up to 4 slots (layer, filter, bias) as vector / matrix / 3-D tensor, x 1..60 (thorough 300) update steps naming a logical parameter, a step number (constant 1, increasing, repeated, arbitrary; in one history of five offset by 100..5000)  and a gradient class (random, constant, sparse, sign-flipping, tiny 1e-20..1e-8, large 1e2..1e4). Oracles: documented equations in f64 with an f32 shadow for conditioning; rank independence <= 4 ulp; slot isolation bitwise against a solo run; finiteness. Non-trivial: >= 3 steps on one parameter with a stateful optimizer, or a rank >= 2 slot, or >= 2 interleaved slots. Distinct = (kind, hyper-parameters, rank multiset, step-number pattern, first 12 gradient classes, step count).".into()
+        "tape-decoded history: optimizer kind x hyper-parameters (valid ranges, exact 0 -> validate's default, None/Some(0)/Some(x) for decay and momentum, dampening, centred) x 1-2 logical parameters of flat length 1..16 (one history in 60: 128 x 130 elements), each materialised in up to 4 slots (layer, filter, bias) as vector / matrix / 3-D tensor, x 1..60 (thorough 300) update steps naming a logical parameter, a step number (constant 1, increasing, repeated, arbitrary; in one history of five offset by 100..5000)  and a gradient class (random, constant, sparse, sign-flipping, tiny 1e-20..1e-8, large 1e2..1e4); in one history of five the validated optimizer is cloned and the clone validated again before the first step (what Network::set_optimizer does for the optimizer of a feedback block). Oracles: documented equations in f64 with an f32 shadow for conditioning; rank independence <= 4 ulp; slot isolation bitwise against a solo run; finiteness. Non-trivial: >= 3 steps on one parameter with a stateful optimizer, or a rank >= 2 slot, or >= 2 interleaved slots. Distinct = (kind, hyper-parameters, rank multiset, step-number pattern, first 12 gradient classes, step count).".into()
     }
     fn assumptions(&self) -> Vec<String> {
         vec![
